@@ -703,6 +703,38 @@ def check_eof_latch(eng, run):
     run.floor("C10.eof exception arms with an end-of-stream latch", n_arms, 2)
 
 
+def check_consumer_reset_sites(eng, run):
+    """who may reset a stream consumer: `clear()` of the consumers (lowlevel/_stream.py) and of the receivers built on them throws away
+    the buffered bytes *and* the half-fed parser; it is part of closing.  Every call that resolves to one of those methods sits in a
+    method named clear / close / aclose / __del__.  A reset on a timeout path ('release the buffer of an idle connection') drops the
+    first part of a request that was received before the timeout."""
+    resetters = set()
+    for ci in eng.db.classes.values():
+        if ci.module.name.endswith("lowlevel._stream") or (ci.name in ("_DataReceiverImpl", "_BufferedReceiverImpl") and ".endpoints.stream" in ci.module.name):
+            m = ci.methods.get("clear")
+            if m is not None:
+                resetters.add(m.qualname)
+    if len(resetters) < 4:
+        raise AnalysisError(f"anchor vanished: clear() of the stream consumers / receivers (found {len(resetters)})")
+    n = 0
+    for fn in eng.db.all_functions():
+        if isinstance(fn.node, ast.Lambda) or not fn.module.name.startswith("easynetwork."):
+            continue
+        for c in own_nodes(fn.node):
+            if not (isinstance(c, ast.Call) and isinstance(c.func, ast.Attribute) and c.func.attr == "clear" and not c.args):
+                continue
+            tg = [t for t in eng.typer.call_targets(fn, c) if isinstance(t, FunctionInfo)]
+            if not any(t.qualname in resetters for t in tg):
+                continue
+            n += 1
+            ok = fn.name in ("clear", "close", "aclose", "__del__")
+            if not ok:
+                run.finding("C10.parser", fn, next((x for x in own_nodes(fn.node) if isinstance(x, ast.stmt) and not isinstance(x, (ast.If, ast.While, ast.For, ast.Try, ast.With, ast.AsyncWith, ast.AsyncFor)) and any(y is c for y in ast.walk(x))), c), f"`{ast.unparse(c)}` resets the stream consumer outside a clear()/close()/aclose() method: the bytes of a partially received "
+                            "request (and the parser that was fed with them) are discarded, the rest of the request is then parsed as the start of a new one")
+            run.ob("C10.parser", f"{fn.short}:{ast.unparse(c)}:reset-only-when-closing", ok)
+    run.floor("C10.parser consumer reset sites", n, 6)
+
+
 def run(eng, run):
     from sa.anchors import verify as _verify_anchor_names
     _verify_anchor_names(eng, run)
@@ -723,6 +755,7 @@ def run(eng, run):
     run.attempt(check_conservation, eng, run)
     run.attempt(check_ack, eng, run)
     run.attempt(check_parser, eng, run)
+    run.attempt(check_consumer_reset_sites, eng, run)
     run.attempt(check_eof_latch, eng, run)
     sync_fns = [f for f in hold_functions(eng, False) if f.module.name.startswith(("easynetwork.lowlevel.api_sync.endpoints", "easynetwork.clients"))]
     for fn in sync_fns:
